@@ -58,6 +58,17 @@ Proof.
   rewrite (lookup_perm q l' _ N' H'), (lookup_perm q l _ N H). cbn [lookup]. destruct (N.eqb P q); reflexivity.
 Qed.
 
+Lemma lookup_swap2 q P p p' ks ks' X l l' :
+  NoDup (map ekey l) -> Permutation l ((P, p, ks) :: X) -> Permutation l' ((P, p', ks') :: X) ->
+  lookup q l' = if N.eqb P q then Some (p', ks') else lookup q l.
+Proof.
+  intros N H H'.
+  assert (N1 : NoDup (map ekey ((P, p, ks) :: X))) by (eapply Permutation_NoDup; [apply Permutation_map, H|exact N]).
+  assert (N' : NoDup (map ekey l')).
+  { eapply Permutation_NoDup; [apply Permutation_map, Permutation_sym, H'|]. exact N1. }
+  rewrite (lookup_perm q l' _ N' H'), (lookup_perm q l _ N H). cbn [lookup]. destruct (N.eqb P q); reflexivity.
+Qed.
+
 (* ------------------------------------------------------------------ a rewrite changes the flat view at one node *)
 Section RwFlat.
   Context {A : Type}.
@@ -856,4 +867,130 @@ Proof.
   - unfold all_kid_ids in Hyi. apply in_flat_map in Hyi as ([[P' p'] ks'] & He & Hy'). cbn [snd] in Hy'.
     pose proof (lookup_in _ _ _ _ Nk (loose_flat_incl _ _ Hin _ He)) as Hl.
     destruct (parent_unique w P p ks P' p' ks' y N HP Hl Hy Hy') as [-> _]. apply HPn. apply (proj1 (entry_ids _ _ _ _ He)).
+Qed.
+
+(* ------------------------------------------------------------------ content assignment on the flat view *)
+Lemma set_text_first_split x s a xk (b : list itree) : has_id x xk = true -> existsb (has_id x) a = false ->
+  set_text_first x s (a ++ xk :: b) = a ++ set_text s xk :: b.
+Proof.
+  intros H1. induction a as [|t r IH]; cbn [app set_text_first existsb]; intros H2; [rewrite H1; reflexivity|].
+  apply orb_false_iff in H2 as [H2 H3]. rewrite H2, (IH H3). reflexivity.
+Qed.
+Lemma perm_mid {X} (e : X) (a b : list X) : Permutation (a ++ e :: b) (e :: a ++ b).
+Proof. apply Permutation_sym, Permutation_middle. Qed.
+
+Theorem set_content_effect x s w old ks : NoDup (world_ids_a w) -> sibs_ok w ->
+  node_of w x = Some (PText old, ks) -> (is_loose w x = true \/ w_parent w x <> None) ->
+  (forall q, node_of (apply_a (USetContent x s) w) q = if N.eqb x q then Some (PText s, ks) else node_of w q) /\
+  loose_ids (apply_a (USetContent x s) w) = loose_ids w /\ doc_shape (apply_a (USetContent x s) w) = doc_shape w.
+Proof.
+  intros N S Hx Hwhere. assert (Nk : NoDup (map ekey (wflat w))) by (rewrite wflat_keys; exact N). cbn [apply_a].
+  destruct (is_loose w x) eqn:El.
+  - unfold is_loose in El. destruct (in_split_first _ _ El) as (l1 & t & l2 & Eloose & Ht & Hl1).
+    assert (Hin : In t (loose w)) by (rewrite Eloose; apply in_or_app; right; left; reflexivity).
+    assert (Hid : iid t = x) by (unfold has_id in Ht; apply N.eqb_eq, Ht).
+    pose proof (loose_find_unique _ _ N Hin) as Hf. rewrite Hid in Hf. rewrite w_find_node_of, Hf in Hx. cbn [option_map] in Hx.
+    destruct t as [i pt kk]. cbn in Hid. subst i. unfold entry_of in Hx. cbn [ipayload ikids] in Hx. injection Hx as -> <-.
+    rewrite Eloose, (set_text_first_split _ _ _ _ _ Ht Hl1). cbn [set_text].
+    set (D := flat_map flat (flat_map doc_nodes (docs w))).
+    set (X := D ++ flat_map flat l1 ++ flat_map flat kk ++ flat_map flat l2).
+    assert (PW : Permutation (wflat w) ((x, PText old, map iid kk) :: X)).
+    { unfold wflat, forest. rewrite Eloose, !flat_map_app. cbn [flat_map]. rewrite flat_eq. fold D. unfold X.
+      rewrite (app_assoc D). rewrite <- app_comm_cons. rewrite perm_mid. rewrite <- !app_assoc. reflexivity. }
+    assert (PW' : Permutation (wflat {| docs := docs w; loose := l1 ++ INode x (PText s) kk :: l2 |}) ((x, PText s, map iid kk) :: X)).
+    { unfold wflat, forest. cbn [docs loose]. rewrite !flat_map_app. cbn [flat_map]. rewrite flat_eq. fold D. unfold X.
+      rewrite (app_assoc D). rewrite <- app_comm_cons. rewrite perm_mid. rewrite <- !app_assoc. reflexivity. }
+    split; [|split].
+    + intros q. unfold node_of. apply (lookup_swap2 q x (PText old) (PText s) (map iid kk) (map iid kk) X _ _ Nk PW PW').
+    + unfold loose_ids. cbn [loose]. rewrite Eloose, !map_app. reflexivity.
+    + reflexivity.
+  - destruct Hwhere as [Hc|Hp]; [discriminate|].
+    assert (Gid : forall s0 s' a, at_parent_of x (set_text_first x s) s0 = Some (s', a) -> iid s' = iid s0).
+    { intros [i p kids] s' a. cbn [at_parent_of]. destruct (existsb (has_id x) kids); [|discriminate]. intros H. injection H as <- _. reflexivity. }
+    destruct (w_rw (at_parent_of x (set_text_first x s)) w) as [[w1 []]|] eqn:Er.
+    2:{ exfalso. apply Hp. apply (w_rw_parent x (set_text_first x s) w S). exact Er. }
+    destruct (w_rw_flat _ Gid _ _ _ Er) as (Hds & Hlo & pre & post & s0 & s0' & Hgs & E1 & E2).
+    destruct s0 as [P p kids]. cbn [at_parent_of] in Hgs. destruct (existsb (has_id x) kids) eqn:Ex; [|discriminate]. injection Hgs as <-.
+    destruct (in_split_first _ _ Ex) as (a & xk & b & -> & Hxk & Ha). rewrite (set_text_first_split _ _ _ _ _ Hxk Ha) in E2.
+    assert (Hid : iid xk = x) by (unfold has_id in Hxk; apply N.eqb_eq, Hxk). destruct xk as [i pk kk]. cbn in Hid. subst i.
+    assert (Hin : In (x, pk, map iid kk) (wflat w)).
+    { rewrite E1. apply in_or_app. right. apply in_or_app. left. rewrite flat_eq. right. rewrite flat_map_flat_app. apply in_or_app. right.
+      cbn [flat_map]. rewrite flat_eq. left. reflexivity. }
+    unfold node_of in Hx. rewrite (lookup_in _ _ _ _ Nk Hin) in Hx. injection Hx as -> <-. cbn [set_text] in E2.
+    assert (Hids : map iid (a ++ INode x (PText s) kk :: b) = map iid (a ++ INode x (PText old) kk :: b)) by (rewrite !map_app; reflexivity).
+    set (A1 := pre ++ (P, p, map iid (a ++ INode x (PText old) kk :: b)) :: flat_map flat a).
+    set (B1 := flat_map flat kk ++ flat_map flat b ++ post).
+    set (X := A1 ++ B1).
+    assert (EW : wflat w = A1 ++ (x, PText old, map iid kk) :: B1).
+    { rewrite E1, flat_eq, flat_map_flat_app. cbn [flat_map]. rewrite flat_eq. unfold A1, B1.
+      repeat (rewrite <- ?app_assoc; cbn [app]). reflexivity. }
+    assert (EW' : wflat w1 = A1 ++ (x, PText s, map iid kk) :: B1).
+    { rewrite E2, flat_eq, flat_map_flat_app, Hids. cbn [flat_map]. rewrite flat_eq. unfold A1, B1.
+      repeat (rewrite <- ?app_assoc; cbn [app]). reflexivity. }
+    assert (PW : Permutation (wflat w) ((x, PText old, map iid kk) :: X)) by (rewrite EW; apply perm_mid).
+    assert (PW' : Permutation (wflat w1) ((x, PText s, map iid kk) :: X)) by (rewrite EW'; apply perm_mid).
+    split; [|split; assumption].
+    intros q. unfold node_of. apply (lookup_swap2 q x (PText old) (PText s) (map iid kk) (map iid kk) X _ _ Nk PW PW').
+Qed.
+
+(* ------------------------------------------------------------------ where a node can be *)
+Lemma t_find_inner x T t : t_find x T = Some t -> iid T <> x -> t_parent x T <> None.
+Proof.
+  induction T as [i p kids IH] using itree_ind'. cbn [t_find iid]. destruct (N.eqb_spec i x) as [E|E]; [intros _ H; contradiction|].
+  fold (first_some (t_find x)). intros H _. cbn [t_parent]. destruct (existsb (has_id x) kids) eqn:Ex; [discriminate|].
+  fold (first_some (t_parent x)). destruct (first_some_in _ _ _ H) as (k & Hk & Hf).
+  assert (Hne : iid k <> x).
+  { intros Hid. assert (existsb (has_id x) kids = true); [|congruence]. apply existsb_exists. exists k. split; [exact Hk|]. unfold has_id. apply N.eqb_eq, Hid. }
+  rewrite Forall_forall in IH. specialize (IH k Hk Hf Hne). clear -Hk IH. induction kids as [|k' r IHr]; [destruct Hk|].
+  cbn [first_some]. destruct (t_parent x k') eqn:E; [discriminate|]. destruct Hk as [->|Hk]; [contradiction|]. apply IHr, Hk.
+Qed.
+Lemma first_some_exists {X Y} (f : X -> option Y) l t : In t l -> f t <> None -> first_some f l <> None.
+Proof.
+  induction l as [|a r IH]; intros Hin Hf; [destruct Hin|]. cbn [first_some]. destruct (f a) eqn:E; [discriminate|].
+  destruct Hin as [->|Hin]; [contradiction|]. apply IH; assumption.
+Qed.
+Definition roots_tag (w : world) : Prop := forall d, In d (docs w) -> ikind (doc_root d) = NTag.
+Lemma text_place w x t : sibs_ok w -> roots_tag w -> w_find w x = Some t -> ikind t = NText ->
+  is_loose w x = true \/ w_parent w x <> None.
+Proof.
+  intros S R Hf Hk. unfold w_find in Hf. destruct (first_some_in _ _ _ Hf) as (T & HT & HfT).
+  destruct (N.eq_dec (iid T) x) as [E|E].
+  - (* the found node is the top of its tree *)
+    assert (t = T) by (destruct T as [i p kk]; cbn in E; subst i; cbn [t_find] in HfT; rewrite N.eqb_refl in HfT; injection HfT as <-; reflexivity).
+    subst t. unfold forest in HT. apply in_app_or in HT. destruct HT as [HT|HT].
+    + exfalso. apply in_flat_map in HT as ([[pro r] epi] & Hd & Hin). cbn [doc_nodes] in Hin. apply in_app_or in Hin.
+      destruct Hin as [Hin|[<-|Hin]].
+      * destruct (S _ T Hd (in_or_app _ _ _ (or_introl Hin))) as [_ H2]. rewrite Hk in H2. discriminate.
+      * pose proof (R _ Hd) as H2. cbn in H2. rewrite Hk in H2. discriminate.
+      * destruct (S _ T Hd (in_or_app _ _ _ (or_intror Hin))) as [_ H2]. rewrite Hk in H2. discriminate.
+    + left. unfold is_loose. apply existsb_exists. exists T. split; [exact HT|]. unfold has_id. apply N.eqb_eq, E.
+  - right. unfold w_parent. apply (first_some_exists _ _ T HT). eapply t_find_inner; eassumption.
+Qed.
+
+Lemma not_own_kid_t T P p ks : NoDup (ids T) -> In (P, p, ks) (flat T) -> ~ In P ks.
+Proof.
+  induction T as [i q kids IH] using itree_ind'. rewrite ids_eq, flat_eq. intros N [E|Hin].
+  - injection E as -> -> <-. inversion N as [|? ? Hn _]; subst. intros Hi. apply Hn. apply in_map_iff in Hi as (k & Hk & Hin).
+    apply in_flat_map. exists k. split; [exact Hin|]. rewrite <- Hk. apply iid_in_ids.
+  - apply in_flat_map in Hin as (k & Hk & Hin). rewrite Forall_forall in IH. apply (IH k Hk); [|exact Hin].
+    inversion N as [|? ? _ N']; subst. clear -Hk N'. induction kids as [|k' r IHr]; [destruct Hk|]. cbn [flat_map] in N'.
+    destruct Hk as [->|Hk]; [apply nodup_app_l in N'; exact N'|]. apply IHr; [exact Hk|].
+    apply (Permutation_NoDup (Permutation_app_comm _ _)) in N'. apply nodup_app_l in N'. exact N'.
+Qed.
+Lemma not_own_kid w P p ks : NoDup (world_ids_a w) -> node_of w P = Some (p, ks) -> ~ In P ks.
+Proof.
+  intros N H. unfold node_of in H. apply lookup_some_in in H. unfold wflat in H. apply in_flat_map in H as (T & HT & Hin).
+  apply (not_own_kid_t T P p ks); [|exact Hin]. unfold world_ids_a in N. clear -HT N. induction (forest w) as [|t r IH]; [destruct HT|].
+  cbn [flat_map] in N. destruct HT as [->|HT]; [apply nodup_app_l in N; exact N|]. apply IH; [|exact HT].
+  apply (Permutation_NoDup (Permutation_app_comm _ _)) in N. apply nodup_app_l in N. exact N.
+Qed.
+Lemma index_of_split x (a : list itree) xk b : has_id x xk = true -> existsb (has_id x) a = false -> index_of x (a ++ xk :: b) = length a.
+Proof.
+  intros H1 H2. unfold index_of.
+  assert (G : forall i, (fix go (l : list itree) (i : nat) {struct l} : nat :=
+    match l with [] => i | t :: r => if has_id x t then i else go r (Datatypes.S i) end) (a ++ xk :: b) i = (i + length a)%nat).
+  { induction a as [|t r IH]; intros i; cbn [app length].
+    - rewrite H1. lia.
+    - cbn [existsb] in H2. apply orb_false_iff in H2 as [H2 H3]. rewrite H2, (IH H3). lia. }
+  exact (G 0%nat).
 Qed.
